@@ -5,7 +5,7 @@ from gen import conn as G
 from gen.common import rng_for
 import check as C
 
-KINDS = ["echo", "echo", "noread", "p", "notfound", "close", "err", "errclose", "bigr", "reqclose", "reqnoclose", "silent", "errkind"]
+KINDS = ["echo", "echo", "noread", "p", "notfound", "close", "err", "errclose", "bigr", "reqclose", "reqnoclose", "silent", "errkind", "cont", "gecho"]
 MODES = ["serve", "threaded", "epoll"]
 
 
@@ -44,6 +44,29 @@ def gen_plans(seed, tier):
                  ("P", "w,s:%s,r,c,e" % hx(p1), [r200, "EOF"], {"kinds": ["p"]}),
                  ("S", "e", ["EOF"], {"kinds": []})]
         plans.append((2, conns, True))
+    # two requests on one connection whose handler sends the interim 100 Continue before reading the body, then a plain one
+    pc_ = lambda body: b"POST /continue HTTP/1.1\r\nExpect: 100-continue\r\nContent-Length: %d\r\n\r\n" % len(body) + body
+    for _ in range(2 if tier == "quick" else 20):
+        b1, b2 = b"abc", b"defgh"
+        conns = [("P", "s:%s,r,r,s:%s,r,r,s:%s,r,c,e" % (hx(pc_(b1)), hx(pc_(b2)), hx(p1)),
+                  ["R100:0:e", "R200:0:" + hx(b1), "R100:0:e", "R200:0:" + hx(b2), r200, "EOF"], {"kinds": ["cont", "cont", "p"]}),
+                 ("S", "e", ["EOF"], {"kinds": []})]
+        plans.append((r.choice([1, 2]), conns, False))
+    # connections that end with a reset (RST) instead of a FIN: (a) while idle after an answered request; (b) while still waiting
+    # in the queue behind a busy worker (one worker, a slow request on another connection in front). Either way the connection was
+    # handed to request handling, so it is torn down exactly once (result either way; whether its request was still read is a race)
+    slow = b"GET /slow/150 HTTP/1.1\r\n\r\n"
+    rst = {"kinds": [], "rst": True}
+    for _ in range(3 if tier == "quick" else 30):
+        conns = [("P", "s:%s,r,X" % hx(p1), [r200], {"kinds": ["p"], "rst": True}),
+                 ("P", "s:%s,r,c,e" % hx(p1), [r200, "EOF"], {"kinds": ["p"]}),
+                 ("S", "e", ["EOF"], {"kinds": []})]
+        plans.append((r.choice([1, 2]), conns, False))
+        conns = [("P", "s:%s,|,r,c,e" % hx(slow), ["R200:0:" + hx(b"slow"), "EOF"], {"kinds": ["p"]}),
+                 ("P", "s:%s,X" % hx(p1), [], rst),
+                 ("P", "s:%s,r,c,e" % hx(p1), [r200, "EOF"], {"kinds": ["p"]}),
+                 ("S", "e", ["EOF"], {"kinds": []})]
+        plans.append((1, conns, False))
     return plans
 
 
@@ -70,9 +93,17 @@ def expected_hooks(conns):
         if d != "P":
             out.append("s1p0t0-")
             continue
+        if meta.get("rst"):
+            out.append("s1p[01]t1[oe]")     # a reset connection: torn down exactly once; the rest depends on what was read before the RST
+            continue
         # pre-routing runs once per parsed request = once per request that got as far as a handler
         served = 0
-        for k, e in zip(meta["kinds"], exp):
+        ei = 0
+        for k in meta["kinds"]:
+            if ei >= len(exp):
+                break
+            e = exp[ei]
+            ei += 2 if k == "cont" else 1      # an Expect request is answered by an interim and a final response
             served += 1
             if e == "EOF" or k in ("close", "reqclose", "err", "errclose", "errkind", "silent"):
                 break
@@ -116,8 +147,10 @@ def run(pid):
                 why = None
                 if pid == "C16":
                     want = expected_hooks(conns)
-                    if g["hooks"] != want:
-                        j = next(x for x in range(len(want)) if x >= len(g["hooks"]) or g["hooks"][x] != want[x])
+                    import re as _re
+                    hook_ok = lambda got_, want_: bool(_re.fullmatch(want_, got_)) if "[" in want_ else got_ == want_
+                    if len(g["hooks"]) != len(want) or not all(hook_ok(a_, b_) for a_, b_ in zip(g["hooks"], want)):
+                        j = next(x for x in range(len(want)) if x >= len(g["hooks"]) or not hook_ok(g["hooks"][x], want[x]))
                         why = "mode %s, connection %d: hook calls %s, documented behaviour %s (s=setup p=pre-routing t=teardown o/e=result)" % (m, j, g["hooks"][j] if j < len(g["hooks"]) else "-", want[j])
                     elif g["returned"] != "1":
                         why = "mode %s: the serve call did not return after StopAccepting" % m
@@ -126,7 +159,7 @@ def run(pid):
                             if d == "D" and g["tr"][j] != "EOF":
                                 why = "mode %s: a dropped connection got %s instead of a silent close" % (m, g["tr"][j])
                 else:
-                    want_tr = [",".join(exp) for _, _, exp, _ in conns]
+                    want_tr = [",".join(exp) if exp else "-" for _, _, exp, _ in conns]
                     if g["tr"] != want_tr:
                         j = next(x for x in range(len(want_tr)) if x >= len(g["tr"]) or g["tr"][x] != want_tr[x])
                         why = "mode %s, connection %d: transcript %s differs from the specification %s" % (m, j, (g["tr"][j] if j < len(g["tr"]) else "-")[:80], want_tr[j][:80])
@@ -140,7 +173,9 @@ def run(pid):
 def known_c16(o, ctx, k):
     """K16: an idle open connection while StopAccepting arrives: serve_epoll returns and abandons it (socket never closed)"""
     req = b"GET /p/1/2 HTTP/1.1\r\n\r\n"
-    a = C.run_sharded(ctx["kimpl"], ["EPOLL w=1 failadd=- plan=o0,s0:%s,r0" % hx(req)])[0]
+    # (no request is sent: with one, a spurious dispatch (K14) can pin a worker on the idle connection, whose read time-out then
+    # closes it after 3 s — the abandonment would depend on that race)
+    a = C.run_sharded(ctx["kimpl"], ["EPOLL w=1 failadd=- plan=o0,w,w"])[0]
     d = {}
     for w in a.split()[1:]:
         kk, _, v = w.partition("=")
